@@ -109,6 +109,11 @@ def _case(draw, tier):
             (2, ops.smeta_op(PIDS, [None, "f2"], 2)),
             (1, ops.tag_op(["p2"], 2, "SHA-256", never=True)))
         hist += draw(st.lists(extra, min_size=0, max_size=5))
+        # one populated case in four: an earlier delete_object whose removal of a "_delete" marker failed (the store logs it
+        # and returns normally): a left-over marker, and whatever the instance remembers about it, must not be touched by a
+        # rejected or read-only call either
+        if draw(st.integers(0, 3)) == 0:
+            hist += [{"op": "store", "pid": "gone", "c": 1}, {"op": "delete", "pid": "gone", "fault": "marker-remove"}]
     return {"cfg": {"algo": "SHA-256", "depth": 3, "width": 2}, "contents": [{"hex": "61626364"}, {"hex": "78"}],
             "docs": [{"hex": "6d31"}, {"hex": "6d32"}], "ops": hist, "call": draw(_call()), "populated": pop}
 
